@@ -5,7 +5,7 @@
    duplicates.  The goto state machine of Router.Find is represented by its structured equivalent
    [find_node] on the same tree (see DESIGN: trusted base). *)
 From Coq Require Import List Arith Bool Ascii String Permutation.
-From Echo.Router Require Import Spec2 Fuel Refine Insert InsProof Walk Live Toks Build Sound Complete Top.
+From Echo.Router Require Import Spec2 Fuel Refine Insert InsProof Walk Live Toks Build Sound Complete Top Tail Literal Host.
 Import ListNotations.
 
 (* the tree echo builds, searched as Find does, equals the documented priority search over the set *)
@@ -34,6 +34,29 @@ Theorem C02_complete : forall rs m p r, wf_table rs -> m <> NF -> In r rs -> rt_
   matchT (rt_toks r) p -> is_found (dispatch (build rs) m p).
 Proof. exact instance_complete. Qed.
 Print Assumptions C02_complete.
+
+(* a path equal to a registered literal route is always served by that route *)
+Theorem C02_literal_wins : forall rs m p r, wf_table rs -> m <> NF -> In r rs -> rt_m r = m ->
+  rt_toks r = map TLit p -> dispatch (build rs) m p = Found (fst (entry_of r)) [].
+Proof. exact literal_wins. Qed.
+Print Assumptions C02_literal_wins.
+
+(* routes registered for one host are used for exactly that Host value ... *)
+Theorem C02_host_exact : forall hs dflt h t, h <> [] -> NoDup (map fst hs) -> In (h, t) hs ->
+  find_router hs dflt h = t.
+Proof. exact host_exact. Qed.
+Print Assumptions C02_host_exact.
+
+(* ... every other Host value (case variants included: names are compared byte for byte) gets the default router ... *)
+Theorem C02_host_other : forall hs dflt h, (forall x, In x hs -> fst x <> h) -> find_router hs dflt h = dflt.
+Proof. exact host_other. Qed.
+Print Assumptions C02_host_other.
+
+(* ... and whatever serves a request was registered in the router selected by its Host value *)
+Theorem C02_host_isolation : forall hs dflt h m p r v, wf_table (find_router hs dflt h) ->
+  host_request hs dflt h m p = Served r v -> In r (map fst (table (find_router hs dflt h))).
+Proof. exact host_isolation. Qed.
+Print Assumptions C02_host_isolation.
 
 (* NOT proved at full strength: [is_found] includes being answered by a RouteNotFound route.  The
    stronger reading "the handler of a route registered for the method runs" is refuted on the faithful
